@@ -123,6 +123,14 @@ add("C05", "placeholder created on the domain of the cut operator", OTO, "FieldA
 add("C05", "operator.adjoint(placeholder) instead of placeholder.adjoint(operator)", OTO, "        op = op.partial_insert(same_op[key][1].adjoint(same_op[key][0]))", "        op = op.partial_insert(same_op[key][0].adjoint(same_op[key][1]))", "R05.2")
 add("C05", "self-check compares the rewritten operator with itself", OTO, "        myassert(allclose(op(test_field).asnumpy(), op_optimised(test_field).asnumpy(), 1e-10))", "        myassert(allclose(op_optimised(test_field).asnumpy(), op_optimised(test_field).asnumpy(), 1e-10))", "R05.1")
 add("C05", "subtree placeholders are never bound back", OTO, "    for key in key_list_subtrees:\n        op = op.partial_insert(same_subtrees[key][1].adjoint(same_subtrees[key][0]))\n", "", "R05.2")
+EOP = OPS + "energy_operators.py"
+add("C04", "specialised variable-covariance energy halves the log-determinant for complex sampling too", EOP, "            if not self._cplx:\n                trlog /= 2\n", "            trlog /= 2\n", "R04.2")
+add("C04", "specialised variable-covariance energy with the wrong sign of the log-determinant", EOP, "            res = res + ConstantLikelihoodEnergyOperator(-trlog)", "            res = res + ConstantLikelihoodEnergyOperator(trlog)", "R04.2")
+add("C04", "product gives both factors the constants of the first factor's domain", OPS + "operator.py",
+    "        f2, o2 = self._op2.simplify_for_constant_input(\n            c_inp.extract_part(self._op2.domain))\n        if not isinstance(self._target, MultiDomain):\n            return None, _OpProd(o1, o2)",
+    "        f2, o2 = self._op2.simplify_for_constant_input(\n            c_inp.extract_part(self._op1.domain))\n        if not isinstance(self._target, MultiDomain):\n            return None, _OpProd(o1, o2)", "R04.3")
+add("C04", "chain is specialised from the output side", OPS + "chain_operator.py", "        for op in reversed(self._ops):\n            c_inp, t_op = op.simplify_for_constant_input(c_inp)", "        for op in self._ops:\n            c_inp, t_op = op.simplify_for_constant_input(c_inp)", "R04.3")
+add("C04", "sum rebuilt as a product", OPS + "operator.py", "            return None, _OpSum(o1, o2)", "            return None, _OpProd(o1, o2)", "R04.3")
 VARIANTS = V
 
 add("C18", "mirror flag of another position", "nifty/cl/minimization/sample_list.py", "        return self._m.flexible_addsub(self._r[i], self._n[i])",
@@ -164,6 +172,14 @@ add("C05", "placeholder created on the domain of the cut operator", OTO, "FieldA
 add("C05", "operator.adjoint(placeholder) instead of placeholder.adjoint(operator)", OTO, "        op = op.partial_insert(same_op[key][1].adjoint(same_op[key][0]))", "        op = op.partial_insert(same_op[key][0].adjoint(same_op[key][1]))", "R05.2")
 add("C05", "self-check compares the rewritten operator with itself", OTO, "        myassert(allclose(op(test_field).asnumpy(), op_optimised(test_field).asnumpy(), 1e-10))", "        myassert(allclose(op_optimised(test_field).asnumpy(), op_optimised(test_field).asnumpy(), 1e-10))", "R05.1")
 add("C05", "subtree placeholders are never bound back", OTO, "    for key in key_list_subtrees:\n        op = op.partial_insert(same_subtrees[key][1].adjoint(same_subtrees[key][0]))\n", "", "R05.2")
+EOP = OPS + "energy_operators.py"
+add("C04", "specialised variable-covariance energy halves the log-determinant for complex sampling too", EOP, "            if not self._cplx:\n                trlog /= 2\n", "            trlog /= 2\n", "R04.2")
+add("C04", "specialised variable-covariance energy with the wrong sign of the log-determinant", EOP, "            res = res + ConstantLikelihoodEnergyOperator(-trlog)", "            res = res + ConstantLikelihoodEnergyOperator(trlog)", "R04.2")
+add("C04", "product gives both factors the constants of the first factor's domain", OPS + "operator.py",
+    "        f2, o2 = self._op2.simplify_for_constant_input(\n            c_inp.extract_part(self._op2.domain))\n        if not isinstance(self._target, MultiDomain):\n            return None, _OpProd(o1, o2)",
+    "        f2, o2 = self._op2.simplify_for_constant_input(\n            c_inp.extract_part(self._op1.domain))\n        if not isinstance(self._target, MultiDomain):\n            return None, _OpProd(o1, o2)", "R04.3")
+add("C04", "chain is specialised from the output side", OPS + "chain_operator.py", "        for op in reversed(self._ops):\n            c_inp, t_op = op.simplify_for_constant_input(c_inp)", "        for op in self._ops:\n            c_inp, t_op = op.simplify_for_constant_input(c_inp)", "R04.3")
+add("C04", "sum rebuilt as a product", OPS + "operator.py", "            return None, _OpSum(o1, o2)", "            return None, _OpProd(o1, o2)", "R04.3")
 VARIANTS = V
 
 add("C04", "constants not removed from the position", "nifty/cl/minimization/energy_adapter.py", "            position = position.extract_by_keys(varkeys)\n", "", "R04.1")
@@ -200,6 +216,14 @@ add("C05", "placeholder created on the domain of the cut operator", OTO, "FieldA
 add("C05", "operator.adjoint(placeholder) instead of placeholder.adjoint(operator)", OTO, "        op = op.partial_insert(same_op[key][1].adjoint(same_op[key][0]))", "        op = op.partial_insert(same_op[key][0].adjoint(same_op[key][1]))", "R05.2")
 add("C05", "self-check compares the rewritten operator with itself", OTO, "        myassert(allclose(op(test_field).asnumpy(), op_optimised(test_field).asnumpy(), 1e-10))", "        myassert(allclose(op_optimised(test_field).asnumpy(), op_optimised(test_field).asnumpy(), 1e-10))", "R05.1")
 add("C05", "subtree placeholders are never bound back", OTO, "    for key in key_list_subtrees:\n        op = op.partial_insert(same_subtrees[key][1].adjoint(same_subtrees[key][0]))\n", "", "R05.2")
+EOP = OPS + "energy_operators.py"
+add("C04", "specialised variable-covariance energy halves the log-determinant for complex sampling too", EOP, "            if not self._cplx:\n                trlog /= 2\n", "            trlog /= 2\n", "R04.2")
+add("C04", "specialised variable-covariance energy with the wrong sign of the log-determinant", EOP, "            res = res + ConstantLikelihoodEnergyOperator(-trlog)", "            res = res + ConstantLikelihoodEnergyOperator(trlog)", "R04.2")
+add("C04", "product gives both factors the constants of the first factor's domain", OPS + "operator.py",
+    "        f2, o2 = self._op2.simplify_for_constant_input(\n            c_inp.extract_part(self._op2.domain))\n        if not isinstance(self._target, MultiDomain):\n            return None, _OpProd(o1, o2)",
+    "        f2, o2 = self._op2.simplify_for_constant_input(\n            c_inp.extract_part(self._op1.domain))\n        if not isinstance(self._target, MultiDomain):\n            return None, _OpProd(o1, o2)", "R04.3")
+add("C04", "chain is specialised from the output side", OPS + "chain_operator.py", "        for op in reversed(self._ops):\n            c_inp, t_op = op.simplify_for_constant_input(c_inp)", "        for op in self._ops:\n            c_inp, t_op = op.simplify_for_constant_input(c_inp)", "R04.3")
+add("C04", "sum rebuilt as a product", OPS + "operator.py", "            return None, _OpSum(o1, o2)", "            return None, _OpProd(o1, o2)", "R04.3")
 VARIANTS = V
 
 # ---- rules added after the seeded rounds 3-5
@@ -272,6 +296,14 @@ add("C05", "placeholder created on the domain of the cut operator", OTO, "FieldA
 add("C05", "operator.adjoint(placeholder) instead of placeholder.adjoint(operator)", OTO, "        op = op.partial_insert(same_op[key][1].adjoint(same_op[key][0]))", "        op = op.partial_insert(same_op[key][0].adjoint(same_op[key][1]))", "R05.2")
 add("C05", "self-check compares the rewritten operator with itself", OTO, "        myassert(allclose(op(test_field).asnumpy(), op_optimised(test_field).asnumpy(), 1e-10))", "        myassert(allclose(op_optimised(test_field).asnumpy(), op_optimised(test_field).asnumpy(), 1e-10))", "R05.1")
 add("C05", "subtree placeholders are never bound back", OTO, "    for key in key_list_subtrees:\n        op = op.partial_insert(same_subtrees[key][1].adjoint(same_subtrees[key][0]))\n", "", "R05.2")
+EOP = OPS + "energy_operators.py"
+add("C04", "specialised variable-covariance energy halves the log-determinant for complex sampling too", EOP, "            if not self._cplx:\n                trlog /= 2\n", "            trlog /= 2\n", "R04.2")
+add("C04", "specialised variable-covariance energy with the wrong sign of the log-determinant", EOP, "            res = res + ConstantLikelihoodEnergyOperator(-trlog)", "            res = res + ConstantLikelihoodEnergyOperator(trlog)", "R04.2")
+add("C04", "product gives both factors the constants of the first factor's domain", OPS + "operator.py",
+    "        f2, o2 = self._op2.simplify_for_constant_input(\n            c_inp.extract_part(self._op2.domain))\n        if not isinstance(self._target, MultiDomain):\n            return None, _OpProd(o1, o2)",
+    "        f2, o2 = self._op2.simplify_for_constant_input(\n            c_inp.extract_part(self._op1.domain))\n        if not isinstance(self._target, MultiDomain):\n            return None, _OpProd(o1, o2)", "R04.3")
+add("C04", "chain is specialised from the output side", OPS + "chain_operator.py", "        for op in reversed(self._ops):\n            c_inp, t_op = op.simplify_for_constant_input(c_inp)", "        for op in self._ops:\n            c_inp, t_op = op.simplify_for_constant_input(c_inp)", "R04.3")
+add("C04", "sum rebuilt as a product", OPS + "operator.py", "            return None, _OpSum(o1, o2)", "            return None, _OpProd(o1, o2)", "R04.3")
 VARIANTS = V
 
 SDP = "nifty/re/num/stats_distributions.py"
@@ -323,6 +355,14 @@ add("C05", "placeholder created on the domain of the cut operator", OTO, "FieldA
 add("C05", "operator.adjoint(placeholder) instead of placeholder.adjoint(operator)", OTO, "        op = op.partial_insert(same_op[key][1].adjoint(same_op[key][0]))", "        op = op.partial_insert(same_op[key][0].adjoint(same_op[key][1]))", "R05.2")
 add("C05", "self-check compares the rewritten operator with itself", OTO, "        myassert(allclose(op(test_field).asnumpy(), op_optimised(test_field).asnumpy(), 1e-10))", "        myassert(allclose(op_optimised(test_field).asnumpy(), op_optimised(test_field).asnumpy(), 1e-10))", "R05.1")
 add("C05", "subtree placeholders are never bound back", OTO, "    for key in key_list_subtrees:\n        op = op.partial_insert(same_subtrees[key][1].adjoint(same_subtrees[key][0]))\n", "", "R05.2")
+EOP = OPS + "energy_operators.py"
+add("C04", "specialised variable-covariance energy halves the log-determinant for complex sampling too", EOP, "            if not self._cplx:\n                trlog /= 2\n", "            trlog /= 2\n", "R04.2")
+add("C04", "specialised variable-covariance energy with the wrong sign of the log-determinant", EOP, "            res = res + ConstantLikelihoodEnergyOperator(-trlog)", "            res = res + ConstantLikelihoodEnergyOperator(trlog)", "R04.2")
+add("C04", "product gives both factors the constants of the first factor's domain", OPS + "operator.py",
+    "        f2, o2 = self._op2.simplify_for_constant_input(\n            c_inp.extract_part(self._op2.domain))\n        if not isinstance(self._target, MultiDomain):\n            return None, _OpProd(o1, o2)",
+    "        f2, o2 = self._op2.simplify_for_constant_input(\n            c_inp.extract_part(self._op1.domain))\n        if not isinstance(self._target, MultiDomain):\n            return None, _OpProd(o1, o2)", "R04.3")
+add("C04", "chain is specialised from the output side", OPS + "chain_operator.py", "        for op in reversed(self._ops):\n            c_inp, t_op = op.simplify_for_constant_input(c_inp)", "        for op in self._ops:\n            c_inp, t_op = op.simplify_for_constant_input(c_inp)", "R04.3")
+add("C04", "sum rebuilt as a product", OPS + "operator.py", "            return None, _OpSum(o1, o2)", "            return None, _OpProd(o1, o2)", "R04.3")
 VARIANTS = V
 
 add("C36", "re chi-square divided by size for complex input", "nifty/re/minisanity.py", "    ndof = inp.size if jnp.isrealobj(inp) else 2 * inp.size", "    ndof = inp.size", "R36.1")
@@ -367,6 +407,14 @@ add("C05", "placeholder created on the domain of the cut operator", OTO, "FieldA
 add("C05", "operator.adjoint(placeholder) instead of placeholder.adjoint(operator)", OTO, "        op = op.partial_insert(same_op[key][1].adjoint(same_op[key][0]))", "        op = op.partial_insert(same_op[key][0].adjoint(same_op[key][1]))", "R05.2")
 add("C05", "self-check compares the rewritten operator with itself", OTO, "        myassert(allclose(op(test_field).asnumpy(), op_optimised(test_field).asnumpy(), 1e-10))", "        myassert(allclose(op_optimised(test_field).asnumpy(), op_optimised(test_field).asnumpy(), 1e-10))", "R05.1")
 add("C05", "subtree placeholders are never bound back", OTO, "    for key in key_list_subtrees:\n        op = op.partial_insert(same_subtrees[key][1].adjoint(same_subtrees[key][0]))\n", "", "R05.2")
+EOP = OPS + "energy_operators.py"
+add("C04", "specialised variable-covariance energy halves the log-determinant for complex sampling too", EOP, "            if not self._cplx:\n                trlog /= 2\n", "            trlog /= 2\n", "R04.2")
+add("C04", "specialised variable-covariance energy with the wrong sign of the log-determinant", EOP, "            res = res + ConstantLikelihoodEnergyOperator(-trlog)", "            res = res + ConstantLikelihoodEnergyOperator(trlog)", "R04.2")
+add("C04", "product gives both factors the constants of the first factor's domain", OPS + "operator.py",
+    "        f2, o2 = self._op2.simplify_for_constant_input(\n            c_inp.extract_part(self._op2.domain))\n        if not isinstance(self._target, MultiDomain):\n            return None, _OpProd(o1, o2)",
+    "        f2, o2 = self._op2.simplify_for_constant_input(\n            c_inp.extract_part(self._op1.domain))\n        if not isinstance(self._target, MultiDomain):\n            return None, _OpProd(o1, o2)", "R04.3")
+add("C04", "chain is specialised from the output side", OPS + "chain_operator.py", "        for op in reversed(self._ops):\n            c_inp, t_op = op.simplify_for_constant_input(c_inp)", "        for op in self._ops:\n            c_inp, t_op = op.simplify_for_constant_input(c_inp)", "R04.3")
+add("C04", "sum rebuilt as a product", OPS + "operator.py", "            return None, _OpSum(o1, o2)", "            return None, _OpProd(o1, o2)", "R04.3")
 VARIANTS = V
 
 GMP = "nifty/re/gauss_markov.py"
@@ -412,6 +460,14 @@ add("C05", "placeholder created on the domain of the cut operator", OTO, "FieldA
 add("C05", "operator.adjoint(placeholder) instead of placeholder.adjoint(operator)", OTO, "        op = op.partial_insert(same_op[key][1].adjoint(same_op[key][0]))", "        op = op.partial_insert(same_op[key][0].adjoint(same_op[key][1]))", "R05.2")
 add("C05", "self-check compares the rewritten operator with itself", OTO, "        myassert(allclose(op(test_field).asnumpy(), op_optimised(test_field).asnumpy(), 1e-10))", "        myassert(allclose(op_optimised(test_field).asnumpy(), op_optimised(test_field).asnumpy(), 1e-10))", "R05.1")
 add("C05", "subtree placeholders are never bound back", OTO, "    for key in key_list_subtrees:\n        op = op.partial_insert(same_subtrees[key][1].adjoint(same_subtrees[key][0]))\n", "", "R05.2")
+EOP = OPS + "energy_operators.py"
+add("C04", "specialised variable-covariance energy halves the log-determinant for complex sampling too", EOP, "            if not self._cplx:\n                trlog /= 2\n", "            trlog /= 2\n", "R04.2")
+add("C04", "specialised variable-covariance energy with the wrong sign of the log-determinant", EOP, "            res = res + ConstantLikelihoodEnergyOperator(-trlog)", "            res = res + ConstantLikelihoodEnergyOperator(trlog)", "R04.2")
+add("C04", "product gives both factors the constants of the first factor's domain", OPS + "operator.py",
+    "        f2, o2 = self._op2.simplify_for_constant_input(\n            c_inp.extract_part(self._op2.domain))\n        if not isinstance(self._target, MultiDomain):\n            return None, _OpProd(o1, o2)",
+    "        f2, o2 = self._op2.simplify_for_constant_input(\n            c_inp.extract_part(self._op1.domain))\n        if not isinstance(self._target, MultiDomain):\n            return None, _OpProd(o1, o2)", "R04.3")
+add("C04", "chain is specialised from the output side", OPS + "chain_operator.py", "        for op in reversed(self._ops):\n            c_inp, t_op = op.simplify_for_constant_input(c_inp)", "        for op in self._ops:\n            c_inp, t_op = op.simplify_for_constant_input(c_inp)", "R04.3")
+add("C04", "sum rebuilt as a product", OPS + "operator.py", "            return None, _OpSum(o1, o2)", "            return None, _OpProd(o1, o2)", "R04.3")
 VARIANTS = V
 
 add("C35", "mask stores the flags themselves", OPS + "mask_operator.py", "self._flags = np.logical_not(flags.val)", "self._flags = flags.val.astype(bool)", "R35.1")
@@ -458,6 +514,14 @@ add("C05", "placeholder created on the domain of the cut operator", OTO, "FieldA
 add("C05", "operator.adjoint(placeholder) instead of placeholder.adjoint(operator)", OTO, "        op = op.partial_insert(same_op[key][1].adjoint(same_op[key][0]))", "        op = op.partial_insert(same_op[key][0].adjoint(same_op[key][1]))", "R05.2")
 add("C05", "self-check compares the rewritten operator with itself", OTO, "        myassert(allclose(op(test_field).asnumpy(), op_optimised(test_field).asnumpy(), 1e-10))", "        myassert(allclose(op_optimised(test_field).asnumpy(), op_optimised(test_field).asnumpy(), 1e-10))", "R05.1")
 add("C05", "subtree placeholders are never bound back", OTO, "    for key in key_list_subtrees:\n        op = op.partial_insert(same_subtrees[key][1].adjoint(same_subtrees[key][0]))\n", "", "R05.2")
+EOP = OPS + "energy_operators.py"
+add("C04", "specialised variable-covariance energy halves the log-determinant for complex sampling too", EOP, "            if not self._cplx:\n                trlog /= 2\n", "            trlog /= 2\n", "R04.2")
+add("C04", "specialised variable-covariance energy with the wrong sign of the log-determinant", EOP, "            res = res + ConstantLikelihoodEnergyOperator(-trlog)", "            res = res + ConstantLikelihoodEnergyOperator(trlog)", "R04.2")
+add("C04", "product gives both factors the constants of the first factor's domain", OPS + "operator.py",
+    "        f2, o2 = self._op2.simplify_for_constant_input(\n            c_inp.extract_part(self._op2.domain))\n        if not isinstance(self._target, MultiDomain):\n            return None, _OpProd(o1, o2)",
+    "        f2, o2 = self._op2.simplify_for_constant_input(\n            c_inp.extract_part(self._op1.domain))\n        if not isinstance(self._target, MultiDomain):\n            return None, _OpProd(o1, o2)", "R04.3")
+add("C04", "chain is specialised from the output side", OPS + "chain_operator.py", "        for op in reversed(self._ops):\n            c_inp, t_op = op.simplify_for_constant_input(c_inp)", "        for op in self._ops:\n            c_inp, t_op = op.simplify_for_constant_input(c_inp)", "R04.3")
+add("C04", "sum rebuilt as a product", OPS + "operator.py", "            return None, _OpSum(o1, o2)", "            return None, _OpProd(o1, o2)", "R04.3")
 VARIANTS = V
 
 add("C24", "temporary state file opened exclusively", "nifty/re/optimize_kl.py", '            with open(tmp_fn, "wb") as f:', '            with open(tmp_fn, "xb") as f:', "R24.1")
@@ -497,6 +561,14 @@ add("C05", "placeholder created on the domain of the cut operator", OTO, "FieldA
 add("C05", "operator.adjoint(placeholder) instead of placeholder.adjoint(operator)", OTO, "        op = op.partial_insert(same_op[key][1].adjoint(same_op[key][0]))", "        op = op.partial_insert(same_op[key][0].adjoint(same_op[key][1]))", "R05.2")
 add("C05", "self-check compares the rewritten operator with itself", OTO, "        myassert(allclose(op(test_field).asnumpy(), op_optimised(test_field).asnumpy(), 1e-10))", "        myassert(allclose(op_optimised(test_field).asnumpy(), op_optimised(test_field).asnumpy(), 1e-10))", "R05.1")
 add("C05", "subtree placeholders are never bound back", OTO, "    for key in key_list_subtrees:\n        op = op.partial_insert(same_subtrees[key][1].adjoint(same_subtrees[key][0]))\n", "", "R05.2")
+EOP = OPS + "energy_operators.py"
+add("C04", "specialised variable-covariance energy halves the log-determinant for complex sampling too", EOP, "            if not self._cplx:\n                trlog /= 2\n", "            trlog /= 2\n", "R04.2")
+add("C04", "specialised variable-covariance energy with the wrong sign of the log-determinant", EOP, "            res = res + ConstantLikelihoodEnergyOperator(-trlog)", "            res = res + ConstantLikelihoodEnergyOperator(trlog)", "R04.2")
+add("C04", "product gives both factors the constants of the first factor's domain", OPS + "operator.py",
+    "        f2, o2 = self._op2.simplify_for_constant_input(\n            c_inp.extract_part(self._op2.domain))\n        if not isinstance(self._target, MultiDomain):\n            return None, _OpProd(o1, o2)",
+    "        f2, o2 = self._op2.simplify_for_constant_input(\n            c_inp.extract_part(self._op1.domain))\n        if not isinstance(self._target, MultiDomain):\n            return None, _OpProd(o1, o2)", "R04.3")
+add("C04", "chain is specialised from the output side", OPS + "chain_operator.py", "        for op in reversed(self._ops):\n            c_inp, t_op = op.simplify_for_constant_input(c_inp)", "        for op in self._ops:\n            c_inp, t_op = op.simplify_for_constant_input(c_inp)", "R04.3")
+add("C04", "sum rebuilt as a product", OPS + "operator.py", "            return None, _OpSum(o1, o2)", "            return None, _OpProd(o1, o2)", "R04.3")
 VARIANTS = V
 
 add("C23", "bcast master is rank zero", "nifty/cl/utilities.py", "    master = comm.Get_rank() == root", "    master = comm.Get_rank() == 0", "R23.6")
@@ -537,6 +609,14 @@ add("C05", "placeholder created on the domain of the cut operator", OTO, "FieldA
 add("C05", "operator.adjoint(placeholder) instead of placeholder.adjoint(operator)", OTO, "        op = op.partial_insert(same_op[key][1].adjoint(same_op[key][0]))", "        op = op.partial_insert(same_op[key][0].adjoint(same_op[key][1]))", "R05.2")
 add("C05", "self-check compares the rewritten operator with itself", OTO, "        myassert(allclose(op(test_field).asnumpy(), op_optimised(test_field).asnumpy(), 1e-10))", "        myassert(allclose(op_optimised(test_field).asnumpy(), op_optimised(test_field).asnumpy(), 1e-10))", "R05.1")
 add("C05", "subtree placeholders are never bound back", OTO, "    for key in key_list_subtrees:\n        op = op.partial_insert(same_subtrees[key][1].adjoint(same_subtrees[key][0]))\n", "", "R05.2")
+EOP = OPS + "energy_operators.py"
+add("C04", "specialised variable-covariance energy halves the log-determinant for complex sampling too", EOP, "            if not self._cplx:\n                trlog /= 2\n", "            trlog /= 2\n", "R04.2")
+add("C04", "specialised variable-covariance energy with the wrong sign of the log-determinant", EOP, "            res = res + ConstantLikelihoodEnergyOperator(-trlog)", "            res = res + ConstantLikelihoodEnergyOperator(trlog)", "R04.2")
+add("C04", "product gives both factors the constants of the first factor's domain", OPS + "operator.py",
+    "        f2, o2 = self._op2.simplify_for_constant_input(\n            c_inp.extract_part(self._op2.domain))\n        if not isinstance(self._target, MultiDomain):\n            return None, _OpProd(o1, o2)",
+    "        f2, o2 = self._op2.simplify_for_constant_input(\n            c_inp.extract_part(self._op1.domain))\n        if not isinstance(self._target, MultiDomain):\n            return None, _OpProd(o1, o2)", "R04.3")
+add("C04", "chain is specialised from the output side", OPS + "chain_operator.py", "        for op in reversed(self._ops):\n            c_inp, t_op = op.simplify_for_constant_input(c_inp)", "        for op in self._ops:\n            c_inp, t_op = op.simplify_for_constant_input(c_inp)", "R04.3")
+add("C04", "sum rebuilt as a product", OPS + "operator.py", "            return None, _OpSum(o1, o2)", "            return None, _OpProd(o1, o2)", "R04.3")
 VARIANTS = V
 
 add("C07", "distributor reuses its output buffer", OPS + "distributors.py", "        oarr = np.empty_like(arr, shape=self._pshape, dtype=x.dtype)\n        oarr[()] = arr[(slice(None), self._dofdex, slice(None))]",
@@ -576,6 +656,14 @@ add("C05", "placeholder created on the domain of the cut operator", OTO, "FieldA
 add("C05", "operator.adjoint(placeholder) instead of placeholder.adjoint(operator)", OTO, "        op = op.partial_insert(same_op[key][1].adjoint(same_op[key][0]))", "        op = op.partial_insert(same_op[key][0].adjoint(same_op[key][1]))", "R05.2")
 add("C05", "self-check compares the rewritten operator with itself", OTO, "        myassert(allclose(op(test_field).asnumpy(), op_optimised(test_field).asnumpy(), 1e-10))", "        myassert(allclose(op_optimised(test_field).asnumpy(), op_optimised(test_field).asnumpy(), 1e-10))", "R05.1")
 add("C05", "subtree placeholders are never bound back", OTO, "    for key in key_list_subtrees:\n        op = op.partial_insert(same_subtrees[key][1].adjoint(same_subtrees[key][0]))\n", "", "R05.2")
+EOP = OPS + "energy_operators.py"
+add("C04", "specialised variable-covariance energy halves the log-determinant for complex sampling too", EOP, "            if not self._cplx:\n                trlog /= 2\n", "            trlog /= 2\n", "R04.2")
+add("C04", "specialised variable-covariance energy with the wrong sign of the log-determinant", EOP, "            res = res + ConstantLikelihoodEnergyOperator(-trlog)", "            res = res + ConstantLikelihoodEnergyOperator(trlog)", "R04.2")
+add("C04", "product gives both factors the constants of the first factor's domain", OPS + "operator.py",
+    "        f2, o2 = self._op2.simplify_for_constant_input(\n            c_inp.extract_part(self._op2.domain))\n        if not isinstance(self._target, MultiDomain):\n            return None, _OpProd(o1, o2)",
+    "        f2, o2 = self._op2.simplify_for_constant_input(\n            c_inp.extract_part(self._op1.domain))\n        if not isinstance(self._target, MultiDomain):\n            return None, _OpProd(o1, o2)", "R04.3")
+add("C04", "chain is specialised from the output side", OPS + "chain_operator.py", "        for op in reversed(self._ops):\n            c_inp, t_op = op.simplify_for_constant_input(c_inp)", "        for op in self._ops:\n            c_inp, t_op = op.simplify_for_constant_input(c_inp)", "R04.3")
+add("C04", "sum rebuilt as a product", OPS + "operator.py", "            return None, _OpSum(o1, o2)", "            return None, _OpProd(o1, o2)", "R04.3")
 VARIANTS = V
 
 add("C21", "repeated iteration aliases the previous seed sequence", "nifty/cl/minimization/optimize_kl.py", "            sseqs[iglobal] = sseq_dup", "            sseqs[iglobal] = sseqs[iglobal-1]", "R21.7")
@@ -614,6 +702,14 @@ add("C05", "placeholder created on the domain of the cut operator", OTO, "FieldA
 add("C05", "operator.adjoint(placeholder) instead of placeholder.adjoint(operator)", OTO, "        op = op.partial_insert(same_op[key][1].adjoint(same_op[key][0]))", "        op = op.partial_insert(same_op[key][0].adjoint(same_op[key][1]))", "R05.2")
 add("C05", "self-check compares the rewritten operator with itself", OTO, "        myassert(allclose(op(test_field).asnumpy(), op_optimised(test_field).asnumpy(), 1e-10))", "        myassert(allclose(op_optimised(test_field).asnumpy(), op_optimised(test_field).asnumpy(), 1e-10))", "R05.1")
 add("C05", "subtree placeholders are never bound back", OTO, "    for key in key_list_subtrees:\n        op = op.partial_insert(same_subtrees[key][1].adjoint(same_subtrees[key][0]))\n", "", "R05.2")
+EOP = OPS + "energy_operators.py"
+add("C04", "specialised variable-covariance energy halves the log-determinant for complex sampling too", EOP, "            if not self._cplx:\n                trlog /= 2\n", "            trlog /= 2\n", "R04.2")
+add("C04", "specialised variable-covariance energy with the wrong sign of the log-determinant", EOP, "            res = res + ConstantLikelihoodEnergyOperator(-trlog)", "            res = res + ConstantLikelihoodEnergyOperator(trlog)", "R04.2")
+add("C04", "product gives both factors the constants of the first factor's domain", OPS + "operator.py",
+    "        f2, o2 = self._op2.simplify_for_constant_input(\n            c_inp.extract_part(self._op2.domain))\n        if not isinstance(self._target, MultiDomain):\n            return None, _OpProd(o1, o2)",
+    "        f2, o2 = self._op2.simplify_for_constant_input(\n            c_inp.extract_part(self._op1.domain))\n        if not isinstance(self._target, MultiDomain):\n            return None, _OpProd(o1, o2)", "R04.3")
+add("C04", "chain is specialised from the output side", OPS + "chain_operator.py", "        for op in reversed(self._ops):\n            c_inp, t_op = op.simplify_for_constant_input(c_inp)", "        for op in self._ops:\n            c_inp, t_op = op.simplify_for_constant_input(c_inp)", "R04.3")
+add("C04", "sum rebuilt as a product", OPS + "operator.py", "            return None, _OpSum(o1, o2)", "            return None, _OpProd(o1, o2)", "R04.3")
 VARIANTS = V
 
 GRP = "nifty/re/multi_grid/grid.py"
@@ -659,6 +755,14 @@ add("C05", "placeholder created on the domain of the cut operator", OTO, "FieldA
 add("C05", "operator.adjoint(placeholder) instead of placeholder.adjoint(operator)", OTO, "        op = op.partial_insert(same_op[key][1].adjoint(same_op[key][0]))", "        op = op.partial_insert(same_op[key][0].adjoint(same_op[key][1]))", "R05.2")
 add("C05", "self-check compares the rewritten operator with itself", OTO, "        myassert(allclose(op(test_field).asnumpy(), op_optimised(test_field).asnumpy(), 1e-10))", "        myassert(allclose(op_optimised(test_field).asnumpy(), op_optimised(test_field).asnumpy(), 1e-10))", "R05.1")
 add("C05", "subtree placeholders are never bound back", OTO, "    for key in key_list_subtrees:\n        op = op.partial_insert(same_subtrees[key][1].adjoint(same_subtrees[key][0]))\n", "", "R05.2")
+EOP = OPS + "energy_operators.py"
+add("C04", "specialised variable-covariance energy halves the log-determinant for complex sampling too", EOP, "            if not self._cplx:\n                trlog /= 2\n", "            trlog /= 2\n", "R04.2")
+add("C04", "specialised variable-covariance energy with the wrong sign of the log-determinant", EOP, "            res = res + ConstantLikelihoodEnergyOperator(-trlog)", "            res = res + ConstantLikelihoodEnergyOperator(trlog)", "R04.2")
+add("C04", "product gives both factors the constants of the first factor's domain", OPS + "operator.py",
+    "        f2, o2 = self._op2.simplify_for_constant_input(\n            c_inp.extract_part(self._op2.domain))\n        if not isinstance(self._target, MultiDomain):\n            return None, _OpProd(o1, o2)",
+    "        f2, o2 = self._op2.simplify_for_constant_input(\n            c_inp.extract_part(self._op1.domain))\n        if not isinstance(self._target, MultiDomain):\n            return None, _OpProd(o1, o2)", "R04.3")
+add("C04", "chain is specialised from the output side", OPS + "chain_operator.py", "        for op in reversed(self._ops):\n            c_inp, t_op = op.simplify_for_constant_input(c_inp)", "        for op in self._ops:\n            c_inp, t_op = op.simplify_for_constant_input(c_inp)", "R04.3")
+add("C04", "sum rebuilt as a product", OPS + "operator.py", "            return None, _OpSum(o1, o2)", "            return None, _OpProd(o1, o2)", "R04.3")
 VARIANTS = V
 
 LZP = "nifty/re/num/lanczos.py"
@@ -708,6 +812,14 @@ add("C05", "placeholder created on the domain of the cut operator", OTO, "FieldA
 add("C05", "operator.adjoint(placeholder) instead of placeholder.adjoint(operator)", OTO, "        op = op.partial_insert(same_op[key][1].adjoint(same_op[key][0]))", "        op = op.partial_insert(same_op[key][0].adjoint(same_op[key][1]))", "R05.2")
 add("C05", "self-check compares the rewritten operator with itself", OTO, "        myassert(allclose(op(test_field).asnumpy(), op_optimised(test_field).asnumpy(), 1e-10))", "        myassert(allclose(op_optimised(test_field).asnumpy(), op_optimised(test_field).asnumpy(), 1e-10))", "R05.1")
 add("C05", "subtree placeholders are never bound back", OTO, "    for key in key_list_subtrees:\n        op = op.partial_insert(same_subtrees[key][1].adjoint(same_subtrees[key][0]))\n", "", "R05.2")
+EOP = OPS + "energy_operators.py"
+add("C04", "specialised variable-covariance energy halves the log-determinant for complex sampling too", EOP, "            if not self._cplx:\n                trlog /= 2\n", "            trlog /= 2\n", "R04.2")
+add("C04", "specialised variable-covariance energy with the wrong sign of the log-determinant", EOP, "            res = res + ConstantLikelihoodEnergyOperator(-trlog)", "            res = res + ConstantLikelihoodEnergyOperator(trlog)", "R04.2")
+add("C04", "product gives both factors the constants of the first factor's domain", OPS + "operator.py",
+    "        f2, o2 = self._op2.simplify_for_constant_input(\n            c_inp.extract_part(self._op2.domain))\n        if not isinstance(self._target, MultiDomain):\n            return None, _OpProd(o1, o2)",
+    "        f2, o2 = self._op2.simplify_for_constant_input(\n            c_inp.extract_part(self._op1.domain))\n        if not isinstance(self._target, MultiDomain):\n            return None, _OpProd(o1, o2)", "R04.3")
+add("C04", "chain is specialised from the output side", OPS + "chain_operator.py", "        for op in reversed(self._ops):\n            c_inp, t_op = op.simplify_for_constant_input(c_inp)", "        for op in self._ops:\n            c_inp, t_op = op.simplify_for_constant_input(c_inp)", "R04.3")
+add("C04", "sum rebuilt as a product", OPS + "operator.py", "            return None, _OpSum(o1, o2)", "            return None, _OpProd(o1, o2)", "R04.3")
 VARIANTS = V
 
 add("C20", "wiener filter dereferences the None default", "nifty/re/evi.py", "    draw_linear_kwargs = {} if draw_linear_kwargs is None else draw_linear_kwargs\n", "", "R20.2")
@@ -750,6 +862,14 @@ add("C05", "placeholder created on the domain of the cut operator", OTO, "FieldA
 add("C05", "operator.adjoint(placeholder) instead of placeholder.adjoint(operator)", OTO, "        op = op.partial_insert(same_op[key][1].adjoint(same_op[key][0]))", "        op = op.partial_insert(same_op[key][0].adjoint(same_op[key][1]))", "R05.2")
 add("C05", "self-check compares the rewritten operator with itself", OTO, "        myassert(allclose(op(test_field).asnumpy(), op_optimised(test_field).asnumpy(), 1e-10))", "        myassert(allclose(op_optimised(test_field).asnumpy(), op_optimised(test_field).asnumpy(), 1e-10))", "R05.1")
 add("C05", "subtree placeholders are never bound back", OTO, "    for key in key_list_subtrees:\n        op = op.partial_insert(same_subtrees[key][1].adjoint(same_subtrees[key][0]))\n", "", "R05.2")
+EOP = OPS + "energy_operators.py"
+add("C04", "specialised variable-covariance energy halves the log-determinant for complex sampling too", EOP, "            if not self._cplx:\n                trlog /= 2\n", "            trlog /= 2\n", "R04.2")
+add("C04", "specialised variable-covariance energy with the wrong sign of the log-determinant", EOP, "            res = res + ConstantLikelihoodEnergyOperator(-trlog)", "            res = res + ConstantLikelihoodEnergyOperator(trlog)", "R04.2")
+add("C04", "product gives both factors the constants of the first factor's domain", OPS + "operator.py",
+    "        f2, o2 = self._op2.simplify_for_constant_input(\n            c_inp.extract_part(self._op2.domain))\n        if not isinstance(self._target, MultiDomain):\n            return None, _OpProd(o1, o2)",
+    "        f2, o2 = self._op2.simplify_for_constant_input(\n            c_inp.extract_part(self._op1.domain))\n        if not isinstance(self._target, MultiDomain):\n            return None, _OpProd(o1, o2)", "R04.3")
+add("C04", "chain is specialised from the output side", OPS + "chain_operator.py", "        for op in reversed(self._ops):\n            c_inp, t_op = op.simplify_for_constant_input(c_inp)", "        for op in self._ops:\n            c_inp, t_op = op.simplify_for_constant_input(c_inp)", "R04.3")
+add("C04", "sum rebuilt as a product", OPS + "operator.py", "            return None, _OpSum(o1, o2)", "            return None, _OpProd(o1, o2)", "R04.3")
 VARIANTS = V
 
 add("C27", "sample list save refuses to overwrite under save_strategy all", "nifty/cl/minimization/optimize_kl.py", "                    overwrite=True)\n\n            if _MPI_master(comm(iglobal)):", "                    overwrite=save_strategy == 'latest')\n\n            if _MPI_master(comm(iglobal)):", "R27.8")
@@ -788,6 +908,14 @@ add("C05", "placeholder created on the domain of the cut operator", OTO, "FieldA
 add("C05", "operator.adjoint(placeholder) instead of placeholder.adjoint(operator)", OTO, "        op = op.partial_insert(same_op[key][1].adjoint(same_op[key][0]))", "        op = op.partial_insert(same_op[key][0].adjoint(same_op[key][1]))", "R05.2")
 add("C05", "self-check compares the rewritten operator with itself", OTO, "        myassert(allclose(op(test_field).asnumpy(), op_optimised(test_field).asnumpy(), 1e-10))", "        myassert(allclose(op_optimised(test_field).asnumpy(), op_optimised(test_field).asnumpy(), 1e-10))", "R05.1")
 add("C05", "subtree placeholders are never bound back", OTO, "    for key in key_list_subtrees:\n        op = op.partial_insert(same_subtrees[key][1].adjoint(same_subtrees[key][0]))\n", "", "R05.2")
+EOP = OPS + "energy_operators.py"
+add("C04", "specialised variable-covariance energy halves the log-determinant for complex sampling too", EOP, "            if not self._cplx:\n                trlog /= 2\n", "            trlog /= 2\n", "R04.2")
+add("C04", "specialised variable-covariance energy with the wrong sign of the log-determinant", EOP, "            res = res + ConstantLikelihoodEnergyOperator(-trlog)", "            res = res + ConstantLikelihoodEnergyOperator(trlog)", "R04.2")
+add("C04", "product gives both factors the constants of the first factor's domain", OPS + "operator.py",
+    "        f2, o2 = self._op2.simplify_for_constant_input(\n            c_inp.extract_part(self._op2.domain))\n        if not isinstance(self._target, MultiDomain):\n            return None, _OpProd(o1, o2)",
+    "        f2, o2 = self._op2.simplify_for_constant_input(\n            c_inp.extract_part(self._op1.domain))\n        if not isinstance(self._target, MultiDomain):\n            return None, _OpProd(o1, o2)", "R04.3")
+add("C04", "chain is specialised from the output side", OPS + "chain_operator.py", "        for op in reversed(self._ops):\n            c_inp, t_op = op.simplify_for_constant_input(c_inp)", "        for op in self._ops:\n            c_inp, t_op = op.simplify_for_constant_input(c_inp)", "R04.3")
+add("C04", "sum rebuilt as a product", OPS + "operator.py", "            return None, _OpSum(o1, o2)", "            return None, _OpProd(o1, o2)", "R04.3")
 VARIANTS = V
 
 add("C21", "seed preparation starts at the resume index", "nifty/cl/minimization/optimize_kl.py", "    for iglobal in range(total_iterations):\n        if not fresh_stochasticity(iglobal):", "    for iglobal in range(initial_index, total_iterations):\n        if not fresh_stochasticity(iglobal):", "R21.9")
@@ -825,6 +953,14 @@ add("C05", "placeholder created on the domain of the cut operator", OTO, "FieldA
 add("C05", "operator.adjoint(placeholder) instead of placeholder.adjoint(operator)", OTO, "        op = op.partial_insert(same_op[key][1].adjoint(same_op[key][0]))", "        op = op.partial_insert(same_op[key][0].adjoint(same_op[key][1]))", "R05.2")
 add("C05", "self-check compares the rewritten operator with itself", OTO, "        myassert(allclose(op(test_field).asnumpy(), op_optimised(test_field).asnumpy(), 1e-10))", "        myassert(allclose(op_optimised(test_field).asnumpy(), op_optimised(test_field).asnumpy(), 1e-10))", "R05.1")
 add("C05", "subtree placeholders are never bound back", OTO, "    for key in key_list_subtrees:\n        op = op.partial_insert(same_subtrees[key][1].adjoint(same_subtrees[key][0]))\n", "", "R05.2")
+EOP = OPS + "energy_operators.py"
+add("C04", "specialised variable-covariance energy halves the log-determinant for complex sampling too", EOP, "            if not self._cplx:\n                trlog /= 2\n", "            trlog /= 2\n", "R04.2")
+add("C04", "specialised variable-covariance energy with the wrong sign of the log-determinant", EOP, "            res = res + ConstantLikelihoodEnergyOperator(-trlog)", "            res = res + ConstantLikelihoodEnergyOperator(trlog)", "R04.2")
+add("C04", "product gives both factors the constants of the first factor's domain", OPS + "operator.py",
+    "        f2, o2 = self._op2.simplify_for_constant_input(\n            c_inp.extract_part(self._op2.domain))\n        if not isinstance(self._target, MultiDomain):\n            return None, _OpProd(o1, o2)",
+    "        f2, o2 = self._op2.simplify_for_constant_input(\n            c_inp.extract_part(self._op1.domain))\n        if not isinstance(self._target, MultiDomain):\n            return None, _OpProd(o1, o2)", "R04.3")
+add("C04", "chain is specialised from the output side", OPS + "chain_operator.py", "        for op in reversed(self._ops):\n            c_inp, t_op = op.simplify_for_constant_input(c_inp)", "        for op in self._ops:\n            c_inp, t_op = op.simplify_for_constant_input(c_inp)", "R04.3")
+add("C04", "sum rebuilt as a product", OPS + "operator.py", "            return None, _OpSum(o1, o2)", "            return None, _OpProd(o1, o2)", "R04.3")
 VARIANTS = V
 
 add("C23", "bcast sends the array as it is", "nifty/cl/utilities.py", "        data = (np.ascontiguousarray(obj).reshape(shape) if master\n                else np.empty(shape, dtype))", "        data = obj if master else np.empty(shape, dtype)", "R23.7")
@@ -861,6 +997,14 @@ add("C05", "placeholder created on the domain of the cut operator", OTO, "FieldA
 add("C05", "operator.adjoint(placeholder) instead of placeholder.adjoint(operator)", OTO, "        op = op.partial_insert(same_op[key][1].adjoint(same_op[key][0]))", "        op = op.partial_insert(same_op[key][0].adjoint(same_op[key][1]))", "R05.2")
 add("C05", "self-check compares the rewritten operator with itself", OTO, "        myassert(allclose(op(test_field).asnumpy(), op_optimised(test_field).asnumpy(), 1e-10))", "        myassert(allclose(op_optimised(test_field).asnumpy(), op_optimised(test_field).asnumpy(), 1e-10))", "R05.1")
 add("C05", "subtree placeholders are never bound back", OTO, "    for key in key_list_subtrees:\n        op = op.partial_insert(same_subtrees[key][1].adjoint(same_subtrees[key][0]))\n", "", "R05.2")
+EOP = OPS + "energy_operators.py"
+add("C04", "specialised variable-covariance energy halves the log-determinant for complex sampling too", EOP, "            if not self._cplx:\n                trlog /= 2\n", "            trlog /= 2\n", "R04.2")
+add("C04", "specialised variable-covariance energy with the wrong sign of the log-determinant", EOP, "            res = res + ConstantLikelihoodEnergyOperator(-trlog)", "            res = res + ConstantLikelihoodEnergyOperator(trlog)", "R04.2")
+add("C04", "product gives both factors the constants of the first factor's domain", OPS + "operator.py",
+    "        f2, o2 = self._op2.simplify_for_constant_input(\n            c_inp.extract_part(self._op2.domain))\n        if not isinstance(self._target, MultiDomain):\n            return None, _OpProd(o1, o2)",
+    "        f2, o2 = self._op2.simplify_for_constant_input(\n            c_inp.extract_part(self._op1.domain))\n        if not isinstance(self._target, MultiDomain):\n            return None, _OpProd(o1, o2)", "R04.3")
+add("C04", "chain is specialised from the output side", OPS + "chain_operator.py", "        for op in reversed(self._ops):\n            c_inp, t_op = op.simplify_for_constant_input(c_inp)", "        for op in self._ops:\n            c_inp, t_op = op.simplify_for_constant_input(c_inp)", "R04.3")
+add("C04", "sum rebuilt as a product", OPS + "operator.py", "            return None, _OpSum(o1, o2)", "            return None, _OpProd(o1, o2)", "R04.3")
 VARIANTS = V
 
 add("C14", "controller keeps its convergence counter between runs", "nifty/cl/minimization/iteration_controllers.py",
@@ -908,6 +1052,14 @@ add("C05", "placeholder created on the domain of the cut operator", OTO, "FieldA
 add("C05", "operator.adjoint(placeholder) instead of placeholder.adjoint(operator)", OTO, "        op = op.partial_insert(same_op[key][1].adjoint(same_op[key][0]))", "        op = op.partial_insert(same_op[key][0].adjoint(same_op[key][1]))", "R05.2")
 add("C05", "self-check compares the rewritten operator with itself", OTO, "        myassert(allclose(op(test_field).asnumpy(), op_optimised(test_field).asnumpy(), 1e-10))", "        myassert(allclose(op_optimised(test_field).asnumpy(), op_optimised(test_field).asnumpy(), 1e-10))", "R05.1")
 add("C05", "subtree placeholders are never bound back", OTO, "    for key in key_list_subtrees:\n        op = op.partial_insert(same_subtrees[key][1].adjoint(same_subtrees[key][0]))\n", "", "R05.2")
+EOP = OPS + "energy_operators.py"
+add("C04", "specialised variable-covariance energy halves the log-determinant for complex sampling too", EOP, "            if not self._cplx:\n                trlog /= 2\n", "            trlog /= 2\n", "R04.2")
+add("C04", "specialised variable-covariance energy with the wrong sign of the log-determinant", EOP, "            res = res + ConstantLikelihoodEnergyOperator(-trlog)", "            res = res + ConstantLikelihoodEnergyOperator(trlog)", "R04.2")
+add("C04", "product gives both factors the constants of the first factor's domain", OPS + "operator.py",
+    "        f2, o2 = self._op2.simplify_for_constant_input(\n            c_inp.extract_part(self._op2.domain))\n        if not isinstance(self._target, MultiDomain):\n            return None, _OpProd(o1, o2)",
+    "        f2, o2 = self._op2.simplify_for_constant_input(\n            c_inp.extract_part(self._op1.domain))\n        if not isinstance(self._target, MultiDomain):\n            return None, _OpProd(o1, o2)", "R04.3")
+add("C04", "chain is specialised from the output side", OPS + "chain_operator.py", "        for op in reversed(self._ops):\n            c_inp, t_op = op.simplify_for_constant_input(c_inp)", "        for op in self._ops:\n            c_inp, t_op = op.simplify_for_constant_input(c_inp)", "R04.3")
+add("C04", "sum rebuilt as a product", OPS + "operator.py", "            return None, _OpSum(o1, o2)", "            return None, _OpProd(o1, o2)", "R04.3")
 VARIANTS = V
 
 add("C02", "nested sum signs combined with or", OPS + "sum_operator.py", "                if ng:\n                    negnew += [not n for n in op._neg]\n                else:\n                    negnew += list(op._neg)",
@@ -956,6 +1108,14 @@ add("C05", "placeholder created on the domain of the cut operator", OTO, "FieldA
 add("C05", "operator.adjoint(placeholder) instead of placeholder.adjoint(operator)", OTO, "        op = op.partial_insert(same_op[key][1].adjoint(same_op[key][0]))", "        op = op.partial_insert(same_op[key][0].adjoint(same_op[key][1]))", "R05.2")
 add("C05", "self-check compares the rewritten operator with itself", OTO, "        myassert(allclose(op(test_field).asnumpy(), op_optimised(test_field).asnumpy(), 1e-10))", "        myassert(allclose(op_optimised(test_field).asnumpy(), op_optimised(test_field).asnumpy(), 1e-10))", "R05.1")
 add("C05", "subtree placeholders are never bound back", OTO, "    for key in key_list_subtrees:\n        op = op.partial_insert(same_subtrees[key][1].adjoint(same_subtrees[key][0]))\n", "", "R05.2")
+EOP = OPS + "energy_operators.py"
+add("C04", "specialised variable-covariance energy halves the log-determinant for complex sampling too", EOP, "            if not self._cplx:\n                trlog /= 2\n", "            trlog /= 2\n", "R04.2")
+add("C04", "specialised variable-covariance energy with the wrong sign of the log-determinant", EOP, "            res = res + ConstantLikelihoodEnergyOperator(-trlog)", "            res = res + ConstantLikelihoodEnergyOperator(trlog)", "R04.2")
+add("C04", "product gives both factors the constants of the first factor's domain", OPS + "operator.py",
+    "        f2, o2 = self._op2.simplify_for_constant_input(\n            c_inp.extract_part(self._op2.domain))\n        if not isinstance(self._target, MultiDomain):\n            return None, _OpProd(o1, o2)",
+    "        f2, o2 = self._op2.simplify_for_constant_input(\n            c_inp.extract_part(self._op1.domain))\n        if not isinstance(self._target, MultiDomain):\n            return None, _OpProd(o1, o2)", "R04.3")
+add("C04", "chain is specialised from the output side", OPS + "chain_operator.py", "        for op in reversed(self._ops):\n            c_inp, t_op = op.simplify_for_constant_input(c_inp)", "        for op in self._ops:\n            c_inp, t_op = op.simplify_for_constant_input(c_inp)", "R04.3")
+add("C04", "sum rebuilt as a product", OPS + "operator.py", "            return None, _OpSum(o1, o2)", "            return None, _OpProd(o1, o2)", "R04.3")
 VARIANTS = V
 
 LIP = "nifty/re/likelihood_impl.py"
@@ -997,6 +1157,14 @@ add("C05", "placeholder created on the domain of the cut operator", OTO, "FieldA
 add("C05", "operator.adjoint(placeholder) instead of placeholder.adjoint(operator)", OTO, "        op = op.partial_insert(same_op[key][1].adjoint(same_op[key][0]))", "        op = op.partial_insert(same_op[key][0].adjoint(same_op[key][1]))", "R05.2")
 add("C05", "self-check compares the rewritten operator with itself", OTO, "        myassert(allclose(op(test_field).asnumpy(), op_optimised(test_field).asnumpy(), 1e-10))", "        myassert(allclose(op_optimised(test_field).asnumpy(), op_optimised(test_field).asnumpy(), 1e-10))", "R05.1")
 add("C05", "subtree placeholders are never bound back", OTO, "    for key in key_list_subtrees:\n        op = op.partial_insert(same_subtrees[key][1].adjoint(same_subtrees[key][0]))\n", "", "R05.2")
+EOP = OPS + "energy_operators.py"
+add("C04", "specialised variable-covariance energy halves the log-determinant for complex sampling too", EOP, "            if not self._cplx:\n                trlog /= 2\n", "            trlog /= 2\n", "R04.2")
+add("C04", "specialised variable-covariance energy with the wrong sign of the log-determinant", EOP, "            res = res + ConstantLikelihoodEnergyOperator(-trlog)", "            res = res + ConstantLikelihoodEnergyOperator(trlog)", "R04.2")
+add("C04", "product gives both factors the constants of the first factor's domain", OPS + "operator.py",
+    "        f2, o2 = self._op2.simplify_for_constant_input(\n            c_inp.extract_part(self._op2.domain))\n        if not isinstance(self._target, MultiDomain):\n            return None, _OpProd(o1, o2)",
+    "        f2, o2 = self._op2.simplify_for_constant_input(\n            c_inp.extract_part(self._op1.domain))\n        if not isinstance(self._target, MultiDomain):\n            return None, _OpProd(o1, o2)", "R04.3")
+add("C04", "chain is specialised from the output side", OPS + "chain_operator.py", "        for op in reversed(self._ops):\n            c_inp, t_op = op.simplify_for_constant_input(c_inp)", "        for op in self._ops:\n            c_inp, t_op = op.simplify_for_constant_input(c_inp)", "R04.3")
+add("C04", "sum rebuilt as a product", OPS + "operator.py", "            return None, _OpSum(o1, o2)", "            return None, _OpProd(o1, o2)", "R04.3")
 VARIANTS = V
 
 add("C16", "sy cache written symmetrically", "nifty/cl/minimization/descent_minimizers.py", "            self.sy[kmi, k1] = self.s[kmi].s_vdot(self.y[k1])", "            self.sy[kmi, k1] = self.sy[k1, kmi] = self.s[kmi].s_vdot(self.y[k1])", "R16.3")
@@ -1033,6 +1201,14 @@ add("C05", "placeholder created on the domain of the cut operator", OTO, "FieldA
 add("C05", "operator.adjoint(placeholder) instead of placeholder.adjoint(operator)", OTO, "        op = op.partial_insert(same_op[key][1].adjoint(same_op[key][0]))", "        op = op.partial_insert(same_op[key][0].adjoint(same_op[key][1]))", "R05.2")
 add("C05", "self-check compares the rewritten operator with itself", OTO, "        myassert(allclose(op(test_field).asnumpy(), op_optimised(test_field).asnumpy(), 1e-10))", "        myassert(allclose(op_optimised(test_field).asnumpy(), op_optimised(test_field).asnumpy(), 1e-10))", "R05.1")
 add("C05", "subtree placeholders are never bound back", OTO, "    for key in key_list_subtrees:\n        op = op.partial_insert(same_subtrees[key][1].adjoint(same_subtrees[key][0]))\n", "", "R05.2")
+EOP = OPS + "energy_operators.py"
+add("C04", "specialised variable-covariance energy halves the log-determinant for complex sampling too", EOP, "            if not self._cplx:\n                trlog /= 2\n", "            trlog /= 2\n", "R04.2")
+add("C04", "specialised variable-covariance energy with the wrong sign of the log-determinant", EOP, "            res = res + ConstantLikelihoodEnergyOperator(-trlog)", "            res = res + ConstantLikelihoodEnergyOperator(trlog)", "R04.2")
+add("C04", "product gives both factors the constants of the first factor's domain", OPS + "operator.py",
+    "        f2, o2 = self._op2.simplify_for_constant_input(\n            c_inp.extract_part(self._op2.domain))\n        if not isinstance(self._target, MultiDomain):\n            return None, _OpProd(o1, o2)",
+    "        f2, o2 = self._op2.simplify_for_constant_input(\n            c_inp.extract_part(self._op1.domain))\n        if not isinstance(self._target, MultiDomain):\n            return None, _OpProd(o1, o2)", "R04.3")
+add("C04", "chain is specialised from the output side", OPS + "chain_operator.py", "        for op in reversed(self._ops):\n            c_inp, t_op = op.simplify_for_constant_input(c_inp)", "        for op in self._ops:\n            c_inp, t_op = op.simplify_for_constant_input(c_inp)", "R04.3")
+add("C04", "sum rebuilt as a product", OPS + "operator.py", "            return None, _OpSum(o1, o2)", "            return None, _OpProd(o1, o2)", "R04.3")
 VARIANTS = V
 
 add("C29", "generic generator applies the transposed amplitude", GMP, "    in_ax = (None if len(diffamp.shape) == 2 else 0, 0)\n    res = vmap(jnp.matmul, in_ax, 0)(diffamp, xi)\n",
@@ -1073,6 +1249,14 @@ add("C05", "placeholder created on the domain of the cut operator", OTO, "FieldA
 add("C05", "operator.adjoint(placeholder) instead of placeholder.adjoint(operator)", OTO, "        op = op.partial_insert(same_op[key][1].adjoint(same_op[key][0]))", "        op = op.partial_insert(same_op[key][0].adjoint(same_op[key][1]))", "R05.2")
 add("C05", "self-check compares the rewritten operator with itself", OTO, "        myassert(allclose(op(test_field).asnumpy(), op_optimised(test_field).asnumpy(), 1e-10))", "        myassert(allclose(op_optimised(test_field).asnumpy(), op_optimised(test_field).asnumpy(), 1e-10))", "R05.1")
 add("C05", "subtree placeholders are never bound back", OTO, "    for key in key_list_subtrees:\n        op = op.partial_insert(same_subtrees[key][1].adjoint(same_subtrees[key][0]))\n", "", "R05.2")
+EOP = OPS + "energy_operators.py"
+add("C04", "specialised variable-covariance energy halves the log-determinant for complex sampling too", EOP, "            if not self._cplx:\n                trlog /= 2\n", "            trlog /= 2\n", "R04.2")
+add("C04", "specialised variable-covariance energy with the wrong sign of the log-determinant", EOP, "            res = res + ConstantLikelihoodEnergyOperator(-trlog)", "            res = res + ConstantLikelihoodEnergyOperator(trlog)", "R04.2")
+add("C04", "product gives both factors the constants of the first factor's domain", OPS + "operator.py",
+    "        f2, o2 = self._op2.simplify_for_constant_input(\n            c_inp.extract_part(self._op2.domain))\n        if not isinstance(self._target, MultiDomain):\n            return None, _OpProd(o1, o2)",
+    "        f2, o2 = self._op2.simplify_for_constant_input(\n            c_inp.extract_part(self._op1.domain))\n        if not isinstance(self._target, MultiDomain):\n            return None, _OpProd(o1, o2)", "R04.3")
+add("C04", "chain is specialised from the output side", OPS + "chain_operator.py", "        for op in reversed(self._ops):\n            c_inp, t_op = op.simplify_for_constant_input(c_inp)", "        for op in self._ops:\n            c_inp, t_op = op.simplify_for_constant_input(c_inp)", "R04.3")
+add("C04", "sum rebuilt as a product", OPS + "operator.py", "            return None, _OpSum(o1, o2)", "            return None, _OpProd(o1, o2)", "R04.3")
 VARIANTS = V
 
 add("C35", "LOS stride uses the wrong extent", "nifty/cl/library/los_response.py", "        inc[i] = inc[i+1]*shp[i+1]", "        inc[i] = inc[i+1]*shp[i]", "R35.5")
@@ -1111,6 +1295,14 @@ add("C05", "placeholder created on the domain of the cut operator", OTO, "FieldA
 add("C05", "operator.adjoint(placeholder) instead of placeholder.adjoint(operator)", OTO, "        op = op.partial_insert(same_op[key][1].adjoint(same_op[key][0]))", "        op = op.partial_insert(same_op[key][0].adjoint(same_op[key][1]))", "R05.2")
 add("C05", "self-check compares the rewritten operator with itself", OTO, "        myassert(allclose(op(test_field).asnumpy(), op_optimised(test_field).asnumpy(), 1e-10))", "        myassert(allclose(op_optimised(test_field).asnumpy(), op_optimised(test_field).asnumpy(), 1e-10))", "R05.1")
 add("C05", "subtree placeholders are never bound back", OTO, "    for key in key_list_subtrees:\n        op = op.partial_insert(same_subtrees[key][1].adjoint(same_subtrees[key][0]))\n", "", "R05.2")
+EOP = OPS + "energy_operators.py"
+add("C04", "specialised variable-covariance energy halves the log-determinant for complex sampling too", EOP, "            if not self._cplx:\n                trlog /= 2\n", "            trlog /= 2\n", "R04.2")
+add("C04", "specialised variable-covariance energy with the wrong sign of the log-determinant", EOP, "            res = res + ConstantLikelihoodEnergyOperator(-trlog)", "            res = res + ConstantLikelihoodEnergyOperator(trlog)", "R04.2")
+add("C04", "product gives both factors the constants of the first factor's domain", OPS + "operator.py",
+    "        f2, o2 = self._op2.simplify_for_constant_input(\n            c_inp.extract_part(self._op2.domain))\n        if not isinstance(self._target, MultiDomain):\n            return None, _OpProd(o1, o2)",
+    "        f2, o2 = self._op2.simplify_for_constant_input(\n            c_inp.extract_part(self._op1.domain))\n        if not isinstance(self._target, MultiDomain):\n            return None, _OpProd(o1, o2)", "R04.3")
+add("C04", "chain is specialised from the output side", OPS + "chain_operator.py", "        for op in reversed(self._ops):\n            c_inp, t_op = op.simplify_for_constant_input(c_inp)", "        for op in self._ops:\n            c_inp, t_op = op.simplify_for_constant_input(c_inp)", "R04.3")
+add("C04", "sum rebuilt as a product", OPS + "operator.py", "            return None, _OpSum(o1, o2)", "            return None, _OpProd(o1, o2)", "R04.3")
 VARIANTS = V
 
 add("C28", "matern power kind without the square root", "nifty/re/correlated_field.py", '        if self.kind.lower() == "power":\n            spectrum = jnp.sqrt(spectrum)\n', "", "R28.2")
@@ -1152,6 +1344,14 @@ add("C05", "placeholder created on the domain of the cut operator", OTO, "FieldA
 add("C05", "operator.adjoint(placeholder) instead of placeholder.adjoint(operator)", OTO, "        op = op.partial_insert(same_op[key][1].adjoint(same_op[key][0]))", "        op = op.partial_insert(same_op[key][0].adjoint(same_op[key][1]))", "R05.2")
 add("C05", "self-check compares the rewritten operator with itself", OTO, "        myassert(allclose(op(test_field).asnumpy(), op_optimised(test_field).asnumpy(), 1e-10))", "        myassert(allclose(op_optimised(test_field).asnumpy(), op_optimised(test_field).asnumpy(), 1e-10))", "R05.1")
 add("C05", "subtree placeholders are never bound back", OTO, "    for key in key_list_subtrees:\n        op = op.partial_insert(same_subtrees[key][1].adjoint(same_subtrees[key][0]))\n", "", "R05.2")
+EOP = OPS + "energy_operators.py"
+add("C04", "specialised variable-covariance energy halves the log-determinant for complex sampling too", EOP, "            if not self._cplx:\n                trlog /= 2\n", "            trlog /= 2\n", "R04.2")
+add("C04", "specialised variable-covariance energy with the wrong sign of the log-determinant", EOP, "            res = res + ConstantLikelihoodEnergyOperator(-trlog)", "            res = res + ConstantLikelihoodEnergyOperator(trlog)", "R04.2")
+add("C04", "product gives both factors the constants of the first factor's domain", OPS + "operator.py",
+    "        f2, o2 = self._op2.simplify_for_constant_input(\n            c_inp.extract_part(self._op2.domain))\n        if not isinstance(self._target, MultiDomain):\n            return None, _OpProd(o1, o2)",
+    "        f2, o2 = self._op2.simplify_for_constant_input(\n            c_inp.extract_part(self._op1.domain))\n        if not isinstance(self._target, MultiDomain):\n            return None, _OpProd(o1, o2)", "R04.3")
+add("C04", "chain is specialised from the output side", OPS + "chain_operator.py", "        for op in reversed(self._ops):\n            c_inp, t_op = op.simplify_for_constant_input(c_inp)", "        for op in self._ops:\n            c_inp, t_op = op.simplify_for_constant_input(c_inp)", "R04.3")
+add("C04", "sum rebuilt as a product", OPS + "operator.py", "            return None, _OpSum(o1, o2)", "            return None, _OpProd(o1, o2)", "R04.3")
 VARIANTS = V
 
 add("C31", "scaled open grid coord2index without padding extent", "nifty/re/multi_grid/grid_impl.py", "        coord = coord / ((self.shape + 2 * self.shifts) * self.distances)[bc]", "        coord = coord / (self.shape * self.distances)[bc]", "R31.4")
@@ -1194,4 +1394,12 @@ add("C05", "placeholder created on the domain of the cut operator", OTO, "FieldA
 add("C05", "operator.adjoint(placeholder) instead of placeholder.adjoint(operator)", OTO, "        op = op.partial_insert(same_op[key][1].adjoint(same_op[key][0]))", "        op = op.partial_insert(same_op[key][0].adjoint(same_op[key][1]))", "R05.2")
 add("C05", "self-check compares the rewritten operator with itself", OTO, "        myassert(allclose(op(test_field).asnumpy(), op_optimised(test_field).asnumpy(), 1e-10))", "        myassert(allclose(op_optimised(test_field).asnumpy(), op_optimised(test_field).asnumpy(), 1e-10))", "R05.1")
 add("C05", "subtree placeholders are never bound back", OTO, "    for key in key_list_subtrees:\n        op = op.partial_insert(same_subtrees[key][1].adjoint(same_subtrees[key][0]))\n", "", "R05.2")
+EOP = OPS + "energy_operators.py"
+add("C04", "specialised variable-covariance energy halves the log-determinant for complex sampling too", EOP, "            if not self._cplx:\n                trlog /= 2\n", "            trlog /= 2\n", "R04.2")
+add("C04", "specialised variable-covariance energy with the wrong sign of the log-determinant", EOP, "            res = res + ConstantLikelihoodEnergyOperator(-trlog)", "            res = res + ConstantLikelihoodEnergyOperator(trlog)", "R04.2")
+add("C04", "product gives both factors the constants of the first factor's domain", OPS + "operator.py",
+    "        f2, o2 = self._op2.simplify_for_constant_input(\n            c_inp.extract_part(self._op2.domain))\n        if not isinstance(self._target, MultiDomain):\n            return None, _OpProd(o1, o2)",
+    "        f2, o2 = self._op2.simplify_for_constant_input(\n            c_inp.extract_part(self._op1.domain))\n        if not isinstance(self._target, MultiDomain):\n            return None, _OpProd(o1, o2)", "R04.3")
+add("C04", "chain is specialised from the output side", OPS + "chain_operator.py", "        for op in reversed(self._ops):\n            c_inp, t_op = op.simplify_for_constant_input(c_inp)", "        for op in self._ops:\n            c_inp, t_op = op.simplify_for_constant_input(c_inp)", "R04.3")
+add("C04", "sum rebuilt as a product", OPS + "operator.py", "            return None, _OpSum(o1, o2)", "            return None, _OpProd(o1, o2)", "R04.3")
 VARIANTS = V
